@@ -17,15 +17,17 @@ from .lib import css
 
 PROP = 'C17'
 LEVEL = 'exploration'
-BUDGET = {'quick': 30, 'thorough': 420}
-FLOOR = {'quick': 3000, 'thorough': 40000}
+BUDGET = {'quick': 28, 'thorough': 300}
+FLOOR = {'quick': 3000, 'thorough': 30000}
 RULE = ('random trees (nesting depth 1..3) of @if/@else if/@else chains of 1..4 branches with conditions of every '
         'truthiness kind (literals, variables, comparisons on loop variables), @for from/through/to with integer bounds in '
         '[-6, 6] written as literals, variables or sums, with no unit, equal units, a unit on one side only, convertible '
         'units (in/px/pc/pt/cm/mm, s/ms, turn/deg, kHz/Hz, dppx/dpi) and - expected errors - non-integer bounds, '
         'non-integer converted bounds and incompatible units, @each over space/comma/bracketed lists of 0..6 items, single '
         'values, maps and empty maps, with nested lists and maps as items and 1..3 variables, and @while with a global '
-        'counter (comparison or truthiness condition).  Distinct by source text; every case contains at least one '
+        'counter (comparison or truthiness condition); the tree is the body of a style rule, of a mixin the rule includes, '
+        'or of a function the rule calls (there the trace is appended to a global list with !global and printed by the '
+        'caller).  Distinct by source text; every case contains at least one '
         'directive and is non-trivial.  Oracle: a Python interpreter of the tree predicts the exact sequence of emitted '
         'declarations; the values bound by @each are rendered by the real compiler from the same literal; an expected '
         'error only asserts that compilation fails.')
@@ -199,12 +201,12 @@ class Model:
             if t:
                 self.events.add(('if', n, 'taken=%d' % i))
                 self.entered.add((nd['id'], i))
-                self.run(br['body'], env, path + ['if:%dbr:taken=%d:by=%s' % (n, i, kind)])
+                self.run(br['body'], env, path + ['%d#if:%dbr:taken=%d:by=%s' % (nd['id'], n, i, kind)])
                 return
         if nd['else'] is not None:
             self.events.add(('if', n, 'taken=else'))
             self.entered.add((nd['id'], 'else'))
-            self.run(nd['else'], env, path + ['if:%dbr:taken=else' % n])
+            self.run(nd['else'], env, path + ['%d#if:%dbr:taken=else' % (nd['id'], n)])
         else:
             self.events.add(('if', n, 'taken=none'))
 
@@ -243,7 +245,7 @@ class Model:
             self.entered.add((nd['id'], 'body'))
             e = dict(env)
             e[var] = ('n', i, ua)
-            self.run(nd['body'], e, path + [desc])
+            self.run(nd['body'], e, path + ['%d#%s' % (nd['id'], desc)])
 
     def do_each(self, nd, env, path):
         src = nd['src']
@@ -259,7 +261,7 @@ class Model:
             kind = ('bracketed-' if src[3] else '') + src[2] + '-list'
         pad = trunc = False
         vid = nd['id']
-        self.desc[vid] = 'each:%s:%dvars:%s%s' % (kind, nv, nd['via'], ':nested' if has_nested(src) else '')
+        self.desc[vid] = 'each:%s:%dvars%s' % (kind, nv, ':nested' if has_nested(src) else '')
         for it in items:
             self.entered.add((vid, 'body'))
             e = dict(env)
@@ -271,10 +273,11 @@ class Model:
                 trunc = trunc or len(sub) > nv
                 for j in range(nv):
                     e['e%d%s' % (vid, 'abc'[j])] = ('v', sub[j] if j < len(sub) else None)
-            desc = 'each:%s:%dvars:%s%s' % (kind, nv, nd['via'], ':nested' if has_nested(src) else '')
-            self.run(nd['body'], e, path + [desc])
+            desc = self.desc[vid]
+            self.run(nd['body'], e, path + ['%d#%s' % (nd['id'], desc)])
         self.events.add(('each', kind, nv, 'nested' if has_nested(src) else 'flat',
                          'pad' if pad else '', 'trunc' if trunc else ''))
+        self.events.add(('each-source-written-as', nd['via']))
 
     def do_while(self, nd, env, path):
         g = 'w%d' % nd['id']
@@ -304,7 +307,7 @@ class Model:
             assert n < 30
             if nd['inc_first']:
                 self.glob[g] = ('n', self.glob[g][1] + step, '')
-            self.run(nd['body'], env, path + [desc])
+            self.run(nd['body'], env, path + ['%d#%s' % (nd['id'], desc)])
             if not nd['inc_first']:
                 self.glob[g] = ('n', self.glob[g][1] + step, '')
         self.events.add(('while', mode, 'iterations=%s' % ('0' if n == 0 else ('1' if n == 1 else 'many'))))
@@ -788,6 +791,18 @@ def culprit(p, name):
     return 'top'
 
 
+def binder(name, path):
+    """Description of the directive that binds the variable a declaration `p<emit>-<var>` prints (the variable name
+    carries the id of its directive)."""
+    var = name.split('-', 1)[1] if '-' in name else ''
+    digits = ''.join(ch for ch in var[1:] if ch.isdigit())
+    for x in path:
+        i, d = x.split('#', 1)
+        if i == digits:
+            return d
+    return path[-1].split('#', 1)[1] if path else 'top'
+
+
 def compare(p, rules):
     """rules: rules_of(output).  -> None | ('violation', sig, detail) | ('undecided', reason)"""
     k = p['k']
@@ -811,7 +826,7 @@ def compare(p, rules):
         for (n, v, path), (_, gv) in zip(want, got):
             if v != gv:
                 null = 'expected-null' if v == 'null' else ('observed-null' if gv == 'null' else 'other')
-                return ('violation', 'wrong-value|%s|in=%s' % (null, path[-1] if path else 'top'),
+                return ('violation', 'wrong-value|%s|bound-by=%s' % (null, binder(n, path)),
                         {'declaration': n, 'expected': v, 'observed': gv})
         return None
     # the sequence of bodies differs: classify at the first difference
@@ -820,7 +835,7 @@ def compare(p, rules):
         i += 1
 
     def at(path):
-        return 'in=' + (path[-1] if path else 'top')
+        return 'in=' + (path[-1].split('#', 1)[1] if path else 'top')
     if i < len(names_g) and names_g[i] not in names_w:
         sig = 'body-ran-that-must-not|' + culprit(p, names_g[i])
     elif i == len(names_g) or names_g[i] in names_w[i:]:
@@ -975,7 +990,7 @@ def record(ctx, case, p):
         ctx.stat('declarations_compared', len(pred[1]))
         for _, _, path in pred[1]:
             if len(path) > 1:
-                ctx.seen('nesting', '>'.join(x.split(':')[0] for x in path))
+                ctx.seen('nesting', '>'.join(x.split('#', 1)[1].split(':')[0] for x in path))
 
 
 def settle(ctx, case, verdict, reduce=True):
